@@ -402,6 +402,11 @@ def run(ctx):
                          "plus concatenations; the same profiles rebuilt through the builder API (tree, text, dictionary must coincide); every interleaving of four kinds of modification and "
                          "as_dict() up to the bound from ProfileHist's dumped graph; distinct = profiles and histories")
     ctx.exhaustive = not q
+    # history freedom of the functions of their input behind this property (Pure.tla)
+    from vt.checks import xpure
+
+    xpure.pure_part(ctx, xpure.entries_for("C11"))
+
 
 
 def _single_group_dt(toks):
